@@ -76,6 +76,16 @@ fn subst(op: &str, keys: &[String]) -> Argv {
 const UNORDERED: &[&str] = &["KEYS", "SMEMBERS", "HGETALL", "HKEYS", "HVALS", "SCAN", "SPOP", "CONFIG"];
 
 fn canon(cmd: &str, r: &RespValue) -> String {
+    if cmd == "SCAN" {
+        // [cursor, [keys...]]: the keys of one call come in no defined order
+        if let RespValue::Array(Some(items)) = r {
+            if let (Some(c), Some(RespValue::Array(Some(ks)))) = (items.first(), items.get(1)) {
+                let mut v: Vec<String> = ks.iter().map(resp::show).collect();
+                v.sort();
+                return format!("scan[cursor={} keys={}]", resp::show(c), v.join(","));
+            }
+        }
+    }
     if UNORDERED.contains(&cmd) {
         if let RespValue::Array(Some(items)) = r {
             let mut v: Vec<String> = if cmd == "HGETALL" || cmd == "CONFIG" {
@@ -527,6 +537,37 @@ fn main() {
             }
         });
     }
+    // ---- one SCAN call whose COUNT covers the whole keyspace: m keys (so that some shard holds several of them),
+    // COUNT m / m+1 / 2m / 1000 and no COUNT when m <= 10, with and without MATCH; the 1-shard server returns every key
+    // with cursor 0, and so must the N-shard one
+    let mut scan_cover_cases = 0u64;
+    {
+        let scan_shards: Vec<usize> = if args.tier == Tier::Thorough { vec![2, 3, 4, 5, 8, 16] } else { vec![2, 4, 16] };
+        let sizes: &[usize] = if args.tier == Tier::Thorough { &[1, 2, 3, 5, 8, 10, 13, 20, 33, 64] } else { &[2, 5, 10, 20, 64] };
+        let mut items: Vec<(usize, usize, String)> = Vec::new();
+        for n in &scan_shards {
+            for m in sizes {
+                let mut counts: Vec<String> = vec![format!(" COUNT {m}"), format!(" COUNT {}", m + 1), format!(" COUNT {}", 2 * m), " COUNT 1000".to_string()];
+                if *m <= 10 {
+                    counts.push(String::new());
+                }
+                for c in counts {
+                    items.push((*n, *m, format!("X SCAN 0{c}")));
+                    items.push((*n, *m, format!("X SCAN 0 MATCH user:*{c}")));
+                }
+            }
+        }
+        scan_cover_cases = items.len() as u64;
+        vh::par::par_map(&items, |_, (n, m, op)| {
+            let (keys, _) = pick_keys(*n);
+            let hist: Vec<String> = (0..*m).map(|i| format!("X SET user:{i:03} v")).collect();
+            let h: Vec<&str> = hist.iter().map(|x| x.as_str()).collect();
+            let out = run(*n, &keys, &h, op);
+            if let Some((sig, detail)) = out.violation {
+                rep.violation(sig, detail, json!({"shards": n, "keys": keys, "history": h, "op": op}));
+            }
+        });
+    }
     // ---- command-set sweep: every command shape x key type x placement x N
     let sweep_shards: Vec<usize> = if args.tier == Tier::Thorough { vec![2, 3, 4, 5, 16] } else { vec![2, 3, 16] };
     let insts = sweep_instances();
@@ -569,6 +610,7 @@ fn main() {
     eprintln!("command-set sweep: {} instances, {} cases ({:.1}s)", insts.len(), sweep_cases, rep.elapsed_s());
     let coverage = json!({
         "transaction_replay_cases": tx_cases,
+        "scan_calls_whose_count_covers_the_keyspace": {"cases": scan_cover_cases, "rule": "m keys user:000.. (2..64: some shard holds several), one SCAN 0 [MATCH user:*] with COUNT m, m+1, 2m, 1000 (and no COUNT for m <= 10): reply and keyspace equal to the 1-shard server's"},
         "command_set_sweep": {"command_instances": insts.len(), "cases": sweep_cases, "key_types": SWEEP_SEEDS.iter().map(|x| x.0).collect::<Vec<_>>(), "placements_k1_k2": SWEEP_PLACEMENTS, "shard_counts": sweep_shards, "not_compared": "TIME, INFO, ACL GENPASS, SPOP without count (random or time-dependent replies); MULTI/EXEC/DISCARD/WATCH/UNWATCH (connection-level, see transaction_replay)"},
         "states": states,
         "transitions": transitions,
